@@ -1,7 +1,7 @@
 use crate::{
     ast::{BinaryOperator, Expression},
     error::CompilerError,
-    nesting::{self, MAX_NESTING},
+    nesting::{self, MAX_EXPRESSION_HEIGHT},
 };
 
 #[derive(Debug, Clone, PartialEq)]
@@ -168,8 +168,8 @@ pub fn tokenize_expression(input: &str) -> Result<Vec<Token>, CompilerError> {
                 let text: String = chars[index + 1..end].iter().collect();
                 // The `{…}` parts of a string are parsed and emitted, one inside the
                 // other, when the string is emitted.
-                if deepest_brace_nesting(&text) > MAX_NESTING {
-                    return Err(nesting::too_deep());
+                if deepest_brace_nesting(&text) > MAX_EXPRESSION_HEIGHT {
+                    return Err(nesting::expression_too_tall());
                 }
                 tokens.push(Token::Str(text));
                 index = end + 1;
@@ -393,8 +393,8 @@ impl ExpressionParser {
     /// Record the height of the tree just built, unless the passes that walk it
     /// recursively could not take it.
     fn grown(&mut self, height: usize) -> Result<(), CompilerError> {
-        if height > MAX_NESTING {
-            return Err(nesting::too_deep());
+        if height > MAX_EXPRESSION_HEIGHT {
+            return Err(nesting::expression_too_tall());
         }
         self.height = height;
         Ok(())
